@@ -43,7 +43,7 @@ var c03Kinds = []string{"send_to_fx", "bridge_call", "bridge_token", "send_to_ex
 // fields of each claim type that influence what is executed (the statement's list)
 var c03Fields = map[string][]string{
 	"send_to_fx":         {"token", "amount", "sender", "receiver", "target", "height"},
-	"bridge_call":        {"token", "amount", "sender", "refund", "to", "data", "memo", "value", "tx_origin", "height", "tokens_len", "migrate_data_value", "migrate_value_memo"},
+	"bridge_call":        {"token", "amount", "sender", "refund", "to", "data", "memo", "value", "tx_origin", "height", "tokens_len", "migrate_data_value", "migrate_value_memo", "migrate_decoded_payloads"},
 	"bridge_token":       {"token", "name", "symbol", "decimals", "channel_ibc", "height", "resplit_name_symbol", "migrate_decimals_channel", "symbol_case", "name_case"},
 	"send_to_external":   {"token", "batch_nonce", "height"},
 	"oracle_set_updated": {"set_nonce", "member_power", "member_addr", "members_len", "height", "migrate_height_setnonce"},
@@ -285,6 +285,15 @@ func (g *claimGen) migrate(c crosschaintypes.ExternalClaim, field string) crossc
 				return nil
 			}
 			v.Value = nv
+			return v
+		case "migrate_decoded_payloads":
+			// the same with the payload *bytes*: data "a", value 5, memo "7/b" vs data "a/5", value 7, memo "b"
+			// (hex text cannot contain the separator, the decoded bytes can)
+			a, b := fmt.Sprintf("%x", g.rng.Uint64()), fmt.Sprintf("%x", g.rng.Uint64())
+			d1, d2 := int64(1+g.rng.IntN(9)), int64(1+g.rng.IntN(9))
+			m.Data, m.Value, m.Memo = hex.EncodeToString([]byte(a)), sdkmath.NewInt(d1), hex.EncodeToString([]byte(fmt.Sprintf("%d/%s", d2, b)))
+			v := cloneClaim(m).(*crosschaintypes.MsgBridgeCallClaim)
+			v.Data, v.Value, v.Memo = hex.EncodeToString([]byte(fmt.Sprintf("%s/%d", a, d1))), sdkmath.NewInt(d2), hex.EncodeToString([]byte(b))
 			return v
 		case "migrate_value_memo": // (V+"10", M) vs (V, "10"+M)
 			if !m.Value.IsPositive() {
